@@ -122,7 +122,7 @@ def saoStore (e : Env) (s : State) (m : StoreMsg) : TxM State := do
       (parts.headD [], (parts.drop 1).headD [])
     else (p.commitId, p.commitId)
   let size := if p.size = 0 then 1 else p.size
-  if p.timeout = 0 then throw "invalid timeout"
+  if p.timeout ≤ 0 then throw "invalid timeout"
   let order : Order := {
     id := 0, creator := m.creator, owner := p.owner, provider := node.creator, cid := m.cid,
     duration := p.duration, status := OrderPending, replica := p.replica, shards := [], amount := 0,
